@@ -362,8 +362,8 @@ Proof.
   unfold wf_kernel. intros H. apply andb_true_iff in H as [H Hv]. apply andb_true_iff in H as [Hm Hz]. auto.
 Qed.
 
-(* [len] = true: the lenient parser of notes/fixes/C08-meminfo-legacy-header.diff, any well-formed file;
-   [len] = false: the code as it is now, files made of "name number ..." lines only *)
+(* [len] = true: the code as it is now (db3d5fc), any well-formed file;
+   [len] = false: the parser before that repair, files made of "name number ..." lines only *)
 Theorem vm_exact_gen len k : wf_kernel k = true -> has_total_free k = true -> float_exact k = true ->
   (len = true \/ no_junk (k_mem k) = true) ->
   virtual_memory_gen len (k_pagesize k) (k_meminfo (k_mem k)) (option_map k_zoneinfo (k_zone k))
@@ -375,14 +375,8 @@ Proof.
   now apply vm_of_dict_spec.
 Qed.
 
-Theorem vm_exact k : wf_kernel k = true -> has_total_free k = true -> no_junk (k_mem k) = true ->
-  float_exact k = true ->
+Theorem vm_exact k : wf_kernel k = true -> has_total_free k = true -> float_exact k = true ->
   virtual_memory (k_pagesize k) (k_meminfo (k_mem k)) (option_map k_zoneinfo (k_zone k))
-  = Val (spec_vm k).
-Proof. intros Hwf Htf Hj Hfl. apply (vm_exact_gen false); auto. Qed.
-
-Theorem vm_exact_lenient k : wf_kernel k = true -> has_total_free k = true -> float_exact k = true ->
-  virtual_memory_gen true (k_pagesize k) (k_meminfo (k_mem k)) (option_map k_zoneinfo (k_zone k))
   = Val (spec_vm k).
 Proof. intros Hwf Htf Hfl. apply (vm_exact_gen true); auto. Qed.
 
